@@ -637,6 +637,13 @@ class C20(core.PropertyCheck):
                 emph = simple_emphasis(o["emphasize-lines"])
                 if emph is not None and any(hi > len(lines) or lo > len(lines) for lo, hi in emph):
                     problems += 1
+            kinds_ = [g["kind"] for g in dg]
+            if "InvalidLiteralInclude:order" in kinds_ and not (i is not None and j is not None and j <= i):
+                where = "is absent" if (i is None or j is None) else f"is on line {i + 1}, the end marker on line {j + 1}"
+                return (f"invented: {nm}: the markers are reported as out of order although they are not "
+                        f"(both requested: {'start-after' in o and 'end-before' in o}; the start marker {where})")
+            if "InvalidLiteralInclude:not-found" in kinds_ and not (("start-after" in o and i is None) or ("end-before" in o and j is None)):
+                return f"invented: {nm}: a marker is reported as not found although every requested marker is carried by a line of the file"
             n_invalid = classes.count("InvalidLiteralInclude")
             if n_invalid < problems:
                 return (f"unreported: {nm}: {problems} reportable problem(s) (marker absent / out of order / emphasised line outside the file) "
